@@ -98,6 +98,24 @@ def build(c, spec, prev=None):
         proof = rq.gen_proof(rng, boundary=boundary)
         out["req"] = rq.sign_auth_request(key, tx["raw"], idx, receipt, proof, segwit)
         out.update(key=key, tx=tx, idx=idx, segwit=segwit, receipt=receipt, proof=proof)
+        out["spaced"] = None
+        if rng.random() < 0.06:
+            # the same bytes, written with ASCII blanks between hex digit pairs in one
+            # field: the manager either refuses the request without touching the device,
+            # or relays exactly these bytes
+            req = out["req"]
+            where = rng.choice(["tx", "receipt", "proof", "witnessScript" if segwit else "tx"])
+            if where == "tx":
+                req["message"]["tx"] = respace(rng, req["message"]["tx"])
+            elif where == "witnessScript":
+                req["message"]["witnessScript"] = respace(rng, req["message"]["witnessScript"])
+            elif where == "receipt":
+                req["auth"]["receipt"] = respace(rng, req["auth"]["receipt"])
+            else:
+                k = rng.randrange(len(proof))
+                req["auth"]["receipt_merkle_proof"][k] = respace(
+                    rng, req["auth"]["receipt_merkle_proof"][k])
+            out["spaced"] = where
     # device behaviour
     out["chunk"] = gen_policy(rng)
     if rng.random() < 0.35:
@@ -126,6 +144,22 @@ def build(c, spec, prev=None):
         out["sig"] = der.make_sig(rng, shape)[0]
     out["sigshape"] = shape
     return out
+
+
+def respace(rng, hx):
+    pairs = [hx[i:i + 2] for i in range(0, len(hx), 2)]
+    k = rng.random()
+    if k < 0.4:
+        return " ".join(pairs)
+    if k < 0.7:
+        cut = sorted(rng.sample(range(len(pairs) + 1), min(len(pairs) + 1, rng.randint(2, 5))))
+        out = []
+        for i, p in enumerate(pairs):
+            if i in cut:
+                out.append(rng.choice([" ", "\t", "\n", "  "]))
+            out.append(p)
+        return "".join(out) + (" " if len(pairs) in cut else "")
+    return " " + hx + rng.choice([" ", "\n", " \n"])
 
 
 def expected_streams(b):
@@ -161,6 +195,11 @@ def monitor(acc, c, b, dev, nrec_before, mark, bus, reply, exc):
     if not isinstance(reply, dict) or type(reply.get("errorcode")) is not int:
         return bad("malformed-reply", reply=reply)
     recs = dev.sign_records[nrec_before:]
+    if b.get("spaced"):
+        acc.count("hex_written_with_blanks")
+        if not recs and reply["errorcode"] in (-101, -102) and not bus.apdus(mark):
+            acc.count("hex_written_with_blanks_refused")
+            return
     if len(recs) != 1:
         return bad("device-saw-%d-sign-dialogues" % len(recs), reply=reply)
     rec = recs[0]
